@@ -532,6 +532,148 @@ SPEC = [
 ]
 
 
+class Skip(Exception):
+    """this sample is outside what the definition is claimed for (division by zero, a negative intermediate in Nat)"""
+
+
+class Ev:
+    """Independent evaluation of the selected Python expression, with Python's own integer semantics, under an assignment of
+    the parameters the translator introduced: the reference the generated Lean definitions are validated against."""
+    def __init__(self, env_, nat):
+        self.env, self.nat, self.tr = dict(env_), nat, Tr('Int')
+
+    def val(self, e):
+        if isinstance(e, ast.Constant):
+            return e.value
+        r = self.tr.ref(e)
+        if r is not None:
+            return self.env[r]
+        if isinstance(e, ast.BinOp):
+            a, b = self.val(e.left), self.val(e.right)
+            if isinstance(e.op, (ast.FloorDiv, ast.Mod)) and b == 0:
+                raise Skip()
+            v = {ast.Add: lambda: a + b, ast.Sub: lambda: a - b, ast.Mult: lambda: a * b, ast.FloorDiv: lambda: a // b,
+                 ast.Mod: lambda: a % b}[type(e.op)]()
+            if self.nat and v < 0:
+                raise Skip()
+            return v
+        if isinstance(e, ast.UnaryOp) and isinstance(e.op, ast.USub):
+            return -self.val(e.operand)
+        if isinstance(e, ast.UnaryOp) and isinstance(e.op, ast.Not):
+            return not self.val(e.operand)
+        if isinstance(e, ast.Call):
+            f, a = e.func.id, e.args
+            if f == 'int':
+                return int(self.val(a[0]))
+            if f == 'abs':
+                return abs(self.val(a[0]))
+            if f in ('min', 'max'):
+                return (min if f == 'min' else max)(self.val(a[0]), self.val(a[1]))
+            if f == 'len':
+                r = self.tr.ref(a[0])
+                if r is None:
+                    r = f'{self.tr.ref(a[0].func.value)}_{a[0].func.attr}'
+                return self.env['len_' + r]
+            if f in ('bytes_to_int', 'bytes_to_signed_int'):
+                return a[0].slice.lower.value
+            if f == 'pad':
+                o, m = self.val(a[0]), self.val(a[1])
+                if m == 0:
+                    raise Skip()
+                return o if o % m == 0 else m * (o // m + 1)
+        if isinstance(e, ast.Compare):
+            if len(e.ops) == 1 and isinstance(e.ops[0], (ast.Is, ast.IsNot)):
+                given = self.env[self.tr.ref(e.left) + '_given']
+                return given if isinstance(e.ops[0], ast.IsNot) else not given
+            left, ok = self.val(e.left), True
+            for op, right in zip(e.ops, e.comparators):
+                r = self.val(right)
+                ok = ok and {ast.Lt: left < r, ast.LtE: left <= r, ast.Gt: left > r, ast.GtE: left >= r, ast.Eq: left == r,
+                             ast.NotEq: left != r}[type(op)]
+                left = r
+            return ok
+        if isinstance(e, ast.BoolOp):
+            vs = [self.val(v) for v in e.values]
+            return all(vs) if isinstance(e.op, ast.And) else any(vs)
+        if isinstance(e, ast.IfExp):
+            return self.val(e.body) if self.val(e.test) else self.val(e.orelse)
+        raise TranslationError('evaluator: ' + ast.dump(e)[:60])
+
+    def run(self, stmts):
+        for k, s in enumerate(stmts):
+            if isinstance(s, ast.Expr):
+                continue
+            if isinstance(s, ast.Return):
+                return self.val(s.value)
+            if isinstance(s, ast.Assign):
+                self.env[self.tr.ref(s.targets[0])] = self.val(s.value)
+                continue
+            if isinstance(s, ast.If):
+                return self.run(s.body if self.val(s.test) else (s.orelse if s.orelse else stmts[k + 1:]))
+        raise TranslationError('evaluator: fall-through')
+
+
+def _node_and_params(name, fname, qual, sel, ty):
+    """(ast node or function, ordered parameter names as in the generated definition, parameter type)"""
+    path = os.path.join(env.REPO, 'seismic_zfp', fname)
+    tree = ast.parse(open(path, encoding='utf-8').read())
+    fn = _find_function(tree, qual)
+    tr = Tr(ty, 'Nat' if name == 'ver_dev' else None)
+    if sel[0] == 'func':
+        args = [tr.ref(ast.Name(a.arg)) for a in fn.args.args if a.arg != 'self']
+        tr.body(fn.body)
+        return fn, args + sorted(p for p in tr.params if p not in args), tr.pty
+    node = _select(fn, sel[:-1] if sel[-1] in ('orelse', 'body') else sel)
+    if sel[-1] in ('orelse', 'body'):
+        node = getattr(node, sel[-1])
+    tr.expr(node)
+    params = sorted(tr.params)
+    return node, [p for p in params if not p.endswith('_given')] + [p for p in params if p.endswith('_given')], tr.pty
+
+
+def validation(rng_seed=0, per_def=3):
+    """(lean source of `#eval`s, expected outputs): every generated definition at random parameter values, to be compared
+    with Python's own evaluation of the source expression — the translator is validated on every run, not just trusted"""
+    import random
+    rnd = random.Random(rng_seed)
+    lines, expected = ['import Sgz.Generated.Source', 'open Sgz.Gen'], []
+    for (name, fname, qual, sel, ty) in SPEC:
+        try:
+            node, params, pty = _node_and_params(name, fname, qual, sel, ty)
+        except (TranslationError, OSError, SyntaxError):
+            continue
+        done = 0
+        for _ in range(per_def * 6):
+            if done >= per_def:
+                break
+            vals = {}
+            for p_ in params:
+                if p_.endswith('_given'):
+                    vals[p_] = rnd.random() < .7
+                elif pty == 'Nat':
+                    vals[p_] = rnd.choice([1, 2, 3, 4, 5, 7, 8, 16, 63, 64, 65, 100, 255, 256, 1000, 4096, 70001, 2 ** 32 + 5])
+                else:
+                    vals[p_] = rnd.choice([-70001, -65, -64, -5, -4, -3, -2, -1, 0, 1, 2, 3, 4, 5, 64, 65, 1000, 70001])
+            try:
+                ev = Ev(vals, nat=(pty == 'Nat' and ty != 'Prop') or (ty == 'Prop' and pty == 'Nat'))
+                got = ev.run(node.body) if sel[0] == 'func' else ev.val(node)
+            except Skip:
+                continue
+            args = ' '.join(('True' if v else 'False') if isinstance(v, bool) else (f'({v})' if v < 0 else str(v))
+                            for v in (vals[p_] for p_ in params))
+            if ty == 'Prop':
+                lines.append(f'#eval decide ({name} {args})')
+                expected.append((name, args, 'true' if got else 'false'))
+            elif ty == 'String':
+                lines.append(f'#eval {name}')
+                expected.append((name, '', '"' + got + '"'))
+            else:
+                lines.append(f'#eval ({name} {args} : {ty})')
+                expected.append((name, args, str(got)))
+            done += 1
+    return '\n'.join(lines) + '\n', expected
+
+
 def translate_one(name, fname, qual, sel, ty):
     path = os.path.join(env.REPO, 'seismic_zfp', fname)
     tree = ast.parse(open(path, encoding='utf-8').read())
